@@ -61,7 +61,7 @@ def scen_check(module, level, rule, min_obs_quick=None, min_obs_thorough=None, c
         return core.conclude(prop, tier, seed, level, total, viols, t0, rule, min_obs=mo,
                              assumptions=assumptions,
                              exhaustive=(exhaustive_thorough and tier == "thorough") or exhaustive_quick)
-    return {"run": run, "level": level, "module": module}
+    return {"run": run, "level": level, "module": module, "min_obs_quick": min_obs_quick or {}}
 
 
 def cxxio_pass(prop, tier, seed):
@@ -232,7 +232,7 @@ CHECKS = {
         "reproc_wait grid timeout x deadline x exit time; exact virtual return times compared with "
         "min(timeout, earliest deadline); plus a real-clock cross-check of the virtual-time harness (src/rt.c: waits, polls and stop escalation "
         "against children that live 5-2000 ms of real time; lower bounds only); non-trivial = a poll/wait was compared; distinct = (source kinds in order, timeout, activity)",
-        {"polls_checked": 2500, "expired_deadline_polls": 300, "deadline_events": 120, "timeouts": 200,
+        {"polls_checked": 2500, "expired_deadline_polls": 300, "deadline_events": 80, "timeouts": 200,
          "wait_timeouts": 100, "expected_hangs": 10, "rt_cases": 300, "rt_lower_bounds_checked": 300,
          "rt_timeouts": 80, "rt_statuses": 40, "rt_deadline_events": 10},
         assumptions=KERNEL_TRUST + ["the real-clock pass (480 cases; thorough 2400) judges lower bounds only - not earlier than a timeout or deadline, no status or exit event before the child can have ended; results later than bound + 1.5 s are counted as slow (machine load), never as violations"],
@@ -334,7 +334,7 @@ CHECKS = {
         "campaign of C04 over the scenarios with extra environment, working directory and start-up input: whenever start still reports "
         "success the child must have exactly the requested argv, environment and cwd; "
         "non-trivial = a launch was compared",
-        {"launches_checked": 1000, "args_compared": 5000, "env_entries_compared": 5000, "relative_programs": 300,
+        {"launches_checked": 1000, "args_compared": 5000, "env_entries_compared": 5000, "relative_programs": 250,
          "deep_cwd_cases": 100, "path_searches": 100, "fault_launches_compared": 300}, assumptions=KERNEL_TRUST),
     "C14": scen_check(
         [("eng_seq", "asan"), ("eng_seq", "asan-nd"),
